@@ -4,3 +4,5 @@ C12_STUBS = ["pyrtma.parser.YAML -> stub returning the per-file dictionary of th
 C17_STUBS = ["threading.Event objects of DataCollection -> flags owned by a scheduler; the methods touching them -> generator twins rebuilt from the current source (engine/cotwin.py)",
              "data_collection.time.time -> harness clock (a deadline passes when the harness advances it)", "writer thread -> generator; write_thread.is_alive() -> True",
              "files: real files in a scratch directory; replay: real threads with Event wrappers that park each thread until the schedule grants it the turn"]
+CMP_STUBS = ["open() in the four compiler modules -> in-memory capture", "subprocess.run (black formatter) -> no-op (re-formatting only)",
+             "Parser.logger -> NullLogger; definitions are fed to the real handle_* methods as the dictionaries YAML would produce"]
